@@ -12,3 +12,5 @@ import UberjobModel.Props.C03
 #print axioms Uberjob.Cache.ExQ.exQ_start
 #print axioms Uberjob.Cache.ExR.exR_setup
 #print axioms Uberjob.Cache.ExR.exR_run
+#print axioms Uberjob.Cache.ExT.exT_setup
+#print axioms Uberjob.Cache.ExT.exT_run
